@@ -96,6 +96,11 @@ func expectedPositions(lines []string) map[string]bool {
 							full = false
 							break
 						}
+						// the move is written in another case than the protocol's (a1B1): it may be read as the
+						// move or rejected as unreadable - either way every later token depends on that choice
+						if ms[:4] != strings.ToLower(ms[:4]) {
+							return nil
+						}
 						p = p.Make(m)
 					}
 					baseFen = p.FEN()
